@@ -14,6 +14,31 @@ import vlib
 
 ID = "C19"
 ALLOWED_AXIOMS = []
+THEOREM_CLASSES = {
+    "C19_small_class_fits": "main", "C19_medium_class_fits": "main", "C19_block_geometry": "main",
+    "C19_blocks_disjoint": "main", "C19_blocks_of_different_spans_disjoint": "corollary",
+    "C19_large_fits": "main", "C19_large_huge_fit": "main", "C19_realloc_inplace_fits": "main", "C19_realloc_copy": "main",
+    "C19_class_alloc_safe": "main", "C19_class_free_safe": "main", "C19_used_count_exact": "corollary",
+    "C19_span_machine_history": "main", "C19_allocate_fits": "main",
+    "C19_spans_disjoint_across_reuse": "main", "C19_finalize_unmaps_everything": "main",
+    "C19_lalloc_history_ownership": "main", "C19_blocks_of_different_classes_disjoint": "corollary",
+    "C19_small_block_disjoint_from_big": "corollary", "C19_big_blocks_disjoint": "corollary",
+    "C19_span_layer_supplies_accepted_span": "main", "C19_contents_preserved": "main",
+}
+UNPROVED = [
+    "'pairwise disjoint while live' as ONE statement over L_alloc histories: proved in three pieces - within a class over any alloc/free history (C19_span_machine_history), across classes and against large/huge blocks from the ownership invariant over any l_alloc history (C19_lalloc_history_ownership + corollaries), geometry (C19_blocks_disjoint) - but the glue 'the class-level live list is the projection of the heap-level live list' is not proved, so no single theorem quantifies over mixed histories with a ghost set of live blocks",
+    "'contents preserved across reallocation': C19_contents_preserved is about an abstract memory and one memcpy; that l_alloc performs exactly this copy (and the in-place case writes nothing) is read from the code, the fill patterns of the harness test it",
+    "'returns all memory to the OS when finalized': proved for the span-layer MODEL (C19_finalize_unmaps_everything); the model is tied to srpmalloc.c only through observable consequences (span inside a live mapping, master flags/total_spans, remaining_spans >= span_count on every operation) and the map/unmap balance at every finalize, not operation by operation",
+    "the coupling premise of C19_span_layer_supplies_accepted_span (every span the heap owns is an InUse object of the span-layer state) is not maintained by a combined machine: heap model and span-layer model are separate state machines",
+    "span caches' size limits and reuse order; the global reserve (unused when span_map_count <= heap_reserve_count and page size <= span size)",
+    "the OS returning span-aligned, non-overlapping mappings (checked at run time by the map hook)",
+    "multi-threading / deferred frees (the interpreter is single threaded)",
+]
+MANIFEST_ENTRY = {
+    "text": "proof, partial: theorems cover, for the model of srpmalloc.c as L_alloc uses it, 16-byte alignment and containment of every block, usable size >= requested in all four regimes and across realloc (every 64-bit size), the per-class span machine over any alloc/free history (partition of indices, no double hand-out, exact used_count), span ownership over any history of L_alloc calls (different classes / large / huge blocks never share a span), the span layer over any history (no overlap across cache reuse, finalize unmaps every region) and the copy performed by a moving realloc. Not one end-to-end theorem: the pieces are joined by stated glue (UNPROVED); content preservation and return of memory in the real allocator rest on the C harness (fill patterns, map/unmap balance).",
+    "note": "trusted: Coq kernel, hand-written models of srpmalloc.c (tied by regenerated #defines/guards, by op-by-op trace correspondence of the heap model against the real allocator, and by observable consequences for the span layer), extraction, C harness (includes srpmalloc.c and the text of L_alloc from lua.c), gcc/clang+ASan/UBSan; assumes span-aligned non-overlapping OS mappings, single thread; reads src/lua/lua.c and the Makefile besides srpmalloc.c",
+    "technique": "machine-checked proof in Coq over executable models + regenerated parameters + extracted-model/implementation trace correspondence; shadow-map property oracle in C",
+}
 TRUSTED_BASE = [
     "coqc 8.16.1 kernel (vm_compute used for facts about the regenerated constants and the finite size-class table; no native_compute)",
     "no axioms: every theorem of coq/C19/Properties.v is 'Closed under the global context'",
@@ -90,10 +115,11 @@ def scrape(ctx=None):
         raise RuntimeError("srpmalloc.c: page size lower clamp (min_span_size) not found")
     lines.append("Definition MIN_PAGE_SIZE : Z := %s." % m.group(1))
     got["MIN_PAGE_SIZE"] = m.group(1)
-    m = re.search(r"max_page_size\s*=\s*(4096ULL \* 1024ULL \* 1024ULL)\s*;", src)
+    m = re.search(r"#if UINTPTR_MAX > 0xFFFFFFFF\s*max_page_size\s*=\s*([^;]+);", src)
     if not m:
-        raise RuntimeError("srpmalloc.c: page size upper clamp (max_page_size) not found")
-    lines.append("Definition MAX_PAGE_SIZE : Z := 4096 * 1024 * 1024.")
+        raise RuntimeError("srpmalloc.c: page size upper clamp (max_page_size, 64-bit branch) not found")
+    lines.append("Definition MAX_PAGE_SIZE : Z := %s." % c_expr_to_coq(m.group(1), known))
+    got["MAX_PAGE_SIZE"] = m.group(1).strip()
     # _rpmalloc_allocate_huge: requests whose size + header (rounded up to a page) overflow size_t are refused
     mh = re.search(r"_rpmalloc_allocate_huge\(heap_t\* heap, size_t size\) \{(.*?)\n\}", src, re.S)
     if not mh:
@@ -111,6 +137,7 @@ def scrape(ctx=None):
     m2 = re.search(r"rpaligned_realloc\s*\(\s*ptr\s*,\s*(\d+)\s*,\s*nsize\s*,\s*osize\s*,\s*(\d+)\s*\)", body)
     if not m2 or not re.search(r"if\s*\(\s*nsize\s*==\s*0\s*\)\s*\{\s*rpfree\s*\(\s*ptr\s*\)", body):
         raise RuntimeError("lua.c: L_alloc no longer has the shape nsize==0 -> rpfree(ptr); else rpaligned_realloc(ptr,A,nsize,osize,F)")
+    got["L_alloc_source"] = body
     lines.append("Definition LALLOC_ALIGN : Z := %s." % m2.group(1))
     lines.append("Definition LALLOC_FLAGS : Z := %s." % m2.group(2))
     got["LALLOC_ALIGN"] = m2.group(1)
@@ -140,7 +167,11 @@ HARNESS = os.path.join(vlib.VERIF, "harness", ID, "harness.c")
 def build_harness(ctx, cc="gcc", flags=("-O2",), tag="gcc"):
     src_c = os.path.join(vlib.REPO, "src", "srpmalloc", "srpmalloc.c")
     src_h = os.path.join(vlib.REPO, "src", "srpmalloc", "srpmalloc.h")
-    key = vlib.sha_files([HARNESS, src_c, src_h])[:16] + "-" + tag
+    # L_alloc itself is taken from REPO/src/lua/lua.c (the function text, verbatim) - the harness does not re-implement it
+    _, got = scrape(ctx)
+    lalloc_h = os.path.join(ctx.work, "lalloc_from_lua_c.h")
+    vlib.write_if_changed(lalloc_h, "/* GENERATED from %s/src/lua/lua.c: the text of L_alloc, verbatim */\n%s\n" % (vlib.REPO, got["L_alloc_source"]))
+    key = vlib.sha_files([HARNESS, src_c, src_h, lalloc_h])[:16] + "-" + tag
     exe = os.path.join(ctx.work, "harness-" + key)
     if os.path.exists(exe):
         return exe, None
@@ -150,7 +181,8 @@ def build_harness(ctx, cc="gcc", flags=("-O2",), tag="gcc"):
                 os.remove(os.path.join(ctx.work, f))
             except OSError:
                 pass
-    cmd = [cc] + list(flags) + ["-g", "-DSRPMALLOC_C=\"%s\"" % src_c, HARNESS, "-o", exe + ".tmp"]
+    cmd = [cc] + list(flags) + ["-g", "-DSRPMALLOC_C=\"%s\"" % src_c, "-DLALLOC_H=\"%s\"" % lalloc_h,
+                                "-DLALLOC_ALIGN=%s" % got["LALLOC_ALIGN"], "-DLALLOC_FLAGS=%s" % got["LALLOC_FLAGS"], HARNESS, "-o", exe + ".tmp"]
     rc, out, err = vlib.sh(cmd, timeout=600)
     if rc != 0:
         return None, (out + err)[-3000:]
@@ -529,11 +561,6 @@ def correspond(ctx):
         "untraced_volume_ops": vol_ops,
         "size_classes_compared": len(table),
         "page_size": K.get("page_size"),
-        "unproved": ["span caches' size limits and the order in which cached spans are reused (they decide only WHEN a span is unmapped)",
-                     "the global reserve (unused when span_map_count <= heap_reserve_count and page size <= span size; harness reports the page size)",
-                     "the span-layer model (ProofsSpans.v) is tied to the code only through its observable consequences checked on every operation (span inside a live mapping, master flags/total_spans, remaining_spans >= span_count) and the map/unmap balance at every finalize - not operation by operation",
-                     "heap-level invariant across different size classes and large blocks (each class machine and the span layer are proved separately)",
-                     "the OS returning span-aligned, non-overlapping mappings (checked at run time by the map hook)"],
     })
     del cov["streams"]
     return cov
